@@ -49,6 +49,17 @@ fn lines() {
             "bnd" => bound::run_bnd(&toks[1..]),
             "cls" => bound::run_cls(&toks[1..]),
             "upd" => updater::run(&toks[1..]),
+            "rid" => {
+                // refid_to_u32 (value parser of --phc-ref-id) on the string made of the given bytes
+                let b: Vec<u8> = toks[2..].iter().map(|x| x.parse::<u8>().unwrap()).collect();
+                match String::from_utf8(b) {
+                    Ok(st) => match clock_bound_d::refid_to_u32(&st) {
+                        Ok(v) => format!("ok {}", v),
+                        Err(_) => "rejected".to_string(),
+                    },
+                    Err(_) => "not-utf8".to_string(),
+                }
+            }
             "updt" => updater::run_timed(&toks[1..]),
             "shm" => engine::run(&toks[1..]),
             "stall" => engine::run_stall(&toks[1..]),
